@@ -342,6 +342,29 @@ func (c *Ctx) checkDeduplicate() {
 		// the error exit after a failed AddSequence leaves the function, so {1} on completed iterations
 		okOne = len(cnt) == 1 && cnt[1]
 	}
+	// every group that is recorded goes with a re-added row: no append to the list of groups
+	// outside the arm that re-adds (a shortcut that lists the rows without putting them back
+	// leaves the cleared container empty)
+	strayGroups := 0
+	allInstrs(fn, func(in ssa.Instruction) {
+		ap, ok := in.(*ssa.Call)
+		if !ok || builtinName(ap.Common()) != "append" {
+			return
+		}
+		sl, ok := ap.Type().Underlying().(*types.Slice)
+		if !ok {
+			return
+		}
+		if _, ok := sl.Elem().Underlying().(*types.Slice); !ok {
+			return
+		}
+		if !add.Block().Dominates(ap.Block()) {
+			strayGroups++
+		}
+	})
+	if strayGroups > 0 {
+		okNew = false
+	}
 	L.Check(okKey && okKeySrc && okNew && okOne, "dedup-groups", r.label, "group bookkeeping", c.P.Pos(add.Pos()),
 		"same key for lookup and update; new group index = len(groups)-1 stored in the arm that re-adds; names of duplicates appended to the group found; exactly one of the two per row",
 		fmt.Sprintf("group bookkeeping broken (same key: %v, key is the comparison string: %v, new group recorded with the re-add: %v, exactly one of re-add/append per row: %v)", okKey, okKeySrc, okNew, okOne))
@@ -425,6 +448,9 @@ func walkIndexStartsAtZero(fn, cl *ssa.Function, fv *ssa.FreeVar) bool {
 		for _, in := range b.Instrs {
 			if in == upto {
 				return st
+			}
+			if a, ok := in.(*ssa.Alloc); ok && ssa.Value(a) == cell {
+				st = zero // a fresh variable holds the zero value
 			}
 			if s, ok := in.(*ssa.Store); ok && s.Addr == cell {
 				if k, ok := constInt(s.Val); ok && k == 0 {
